@@ -269,6 +269,9 @@ func solveAll(obls []*Obligation, o *checkOpts) {
 				}
 			}
 			to := o.timeout
+			if ob.Expect == "sat" {
+				to = 2 // vacuity probes: informative only (quantified contexts usually answer unknown)
+			}
 			if ob.Slow {
 				to *= 6 // clauses marked @slow: known to need tens of seconds (64-bit adder identities)
 			}
